@@ -92,6 +92,7 @@ func newH(rt *rapid.T, prop string, o sim.Options) *H {
 		o.StoreFlavour = rapid.SampledFrom([]string{"memory", "memory", "memory", "memory", "memory", "volatile", "volatile", "filesystem"}).Draw(rt, "persistenceBehindTheDouble")
 	}
 	w := sim.New(rt, o)
+	plainRecords = w.PlainRecords
 	h := &H{World: w, rt: rt, prop: prop, labels: map[string]bool{}, born: time.Now()}
 	if w.Store.Flavour != "memory" {
 		h.labels["records-held-by-the-library's-"+w.Store.Flavour+"-persistence"] = true
@@ -709,4 +710,14 @@ func (h *H) releaseKind(rt *rapid.T) bool {
 	}
 	h.settleInbound()
 	return true
+}
+
+// asVolatileSession lets one case in five run on a session made the way
+// VolatileSession makes it: the library's own map, no checksum layer. Only for
+// checks which neither restart nor look into the layout of stored values.
+func asVolatileSession(rt *rapid.T, o sim.Options) sim.Options {
+	if rapid.IntRange(0, 4).Draw(rt, "likeVolatileSession") == 0 {
+		o.StoreFlavour = "volatile-plain"
+	}
+	return o
 }
